@@ -174,6 +174,9 @@ pub fn run_conn(st: SimState, cfg: ConnCfg) -> Outcome {
 #[derive(Default, Clone)]
 pub struct Stats {
     pub evals: u64,
+    /// scenario indices that denote no execution (holes in a mixed-radix index space, histories
+    /// that duplicate a shorter one): not counted as evaluations
+    pub skipped: u64,
     pub nontrivial: u64,
     pub transitions: u64,
     pub counters: BTreeMap<&'static str, u64>,
@@ -188,6 +191,7 @@ impl Stats {
     }
     fn merge(mut self, o: Stats) -> Stats {
         self.evals += o.evals;
+        self.skipped += o.skipped;
         self.nontrivial += o.nontrivial;
         self.transitions += o.transitions;
         for (k, v) in o.counters {
@@ -350,7 +354,7 @@ pub fn drive(check: Check, tier: &str, seed: i64) -> i32 {
             }
             None => work(0..n),
         };
-        fam_info.push(json!({"family": fam.name(), "scenarios": n, "executions": st.evals, "wall_s": tf.elapsed().as_secs_f64()}));
+        fam_info.push(json!({"family": fam.name(), "scenarios": n, "executions": st.evals - st.skipped.min(st.evals), "wall_s": tf.elapsed().as_secs_f64()}));
         total = total.merge(st);
         found.extend(fv);
     }
@@ -452,6 +456,7 @@ pub fn drive(check: Check, tier: &str, seed: i64) -> i32 {
             }
         }
     }
+    total.evals -= total.skipped.min(total.evals);
     let counters: BTreeMap<String, u64> = total.counters.iter().map(|(k, v)| (k.to_string(), *v)).collect();
     let ev = json!({
         "property_id": check.id,
